@@ -21,7 +21,7 @@ pub struct RevealCase {
     pub setback: f32,
 }
 
-fn reveal_case() -> BoxedStrategy<RevealCase> {
+pub fn reveal_case() -> BoxedStrategy<RevealCase> {
     let wallpoly = prop_oneof![4 => rect_polygon(), 1 => star_polygon(3, 8)];
     (
         // WallGeom documents tilt in [0, 180]
